@@ -90,6 +90,34 @@ Inductive xres :=
 Record nopts := {
   n_maxdepth : nat; n_mindepth : nat; n_extra : nat; n_check : bool; n_dim0 : bool }.
 
+(* The depth bounds nuts::draw derives from target_integration_time (src/nuts.rs, head of `draw`):
+   max_steps = ceil(target_time / step_size) (>= 1 because both are > 0; max_steps = 0 makes the
+   real code panic on log2(0) and is excluded by the property's "target_integration_time > 0"),
+   mindepth' = max(floor(log2 max_steps), mindepth),
+   maxdepth' = min(max(max(ceil(log2 max_steps), mindepth'), 1), maxdepth).
+   (eff_depths_old: the code before "fix: a target_integration_time shorter than the step size
+   still integrates one step", without the max 1.) *)
+Definition log2_floor (n : N) : nat := N.to_nat (N.log2 n).
+Definition log2_ceil (n : N) : nat := N.to_nat (N.log2_up n).
+Definition eff_depths (maxdepth mindepth : nat) (max_steps : option N) : nat * nat :=
+  match max_steps with
+  | None => (mindepth, maxdepth)
+  | Some n =>
+      let mn := Nat.max (log2_floor n) mindepth in
+      (mn, Nat.min (Nat.max (Nat.max (log2_ceil n) mn) 1) maxdepth)
+  end.
+Definition eff_depths_old (maxdepth mindepth : nat) (max_steps : option N) : nat * nat :=
+  match max_steps with
+  | None => (mindepth, maxdepth)
+  | Some n =>
+      let mn := Nat.max (log2_floor n) mindepth in
+      (mn, Nat.min (Nat.max (log2_ceil n) mn) maxdepth)
+  end.
+Definition eff_opts (o : nopts) (max_steps : option N) : nopts :=
+  let d := eff_depths (n_maxdepth o) (n_mindepth o) max_steps in
+  {| n_maxdepth := snd d; n_mindepth := fst d; n_extra := n_extra o; n_check := n_check o;
+     n_dim0 := n_dim0 o |}.
+
 Record dres := {
   d_sel : Z; d_depth : nat; d_lo : Z; d_hi : Z;
   d_div : option Z;          (* index whose evaluation diverged *)
